@@ -455,16 +455,6 @@ impl PoolImpl {
 /// Read-only accessors for the out-of-tree verification harness.
 #[cfg(feature = "verif-hooks")]
 impl PoolImpl {
-    /// First slot whose state has not been pruned.
-    pub fn verif_first_unpruned_slot(&self) -> Slot {
-        self.first_unpruned_slot()
-    }
-
-    /// Slots for which per-slot state is currently retained.
-    pub fn verif_retained_slots(&self) -> Vec<Slot> {
-        self.slot_states.keys().copied().collect()
-    }
-
     /// All certificates currently held for `slot`.
     pub fn verif_certs(&self, slot: Slot) -> Vec<Cert> {
         self.get_certs(slot..=slot)
@@ -689,7 +679,7 @@ impl PoolImpl {
     pub fn verif_s2n_waiting(&self) -> Vec<(BlockId, BlockId)> {
         self.s2n_waiting_parent_cert
             .iter()
-            .map(|(p, c)| (p.clone(), c.clone()))
+            .flat_map(|(p, cs)| cs.iter().map(move |c| (p.clone(), c.clone())))
             .collect()
     }
 
